@@ -384,3 +384,551 @@ Lemma arb_rf_delay_spec : rf_delay_spec arb_rf_delay.
 Proof. intros r d. reflexivity. Qed.
 Lemma adia_rf_delay_spec : rf_delay_spec adia_rf_delay.
 Proof. intros r d. reflexivity. Qed.
+
+(* ---------------------------------------------------------------------------------------------- *)
+(* slice-select block shared by the makers: gz = make_trapezoid(flat_time, flat_area), then the delay coupling *)
+Definition gz_part (fg : Q -> Q -> Q -> Q) (fr : Q -> Q -> Q) (mg ms raster dur area : Q)
+  (r0 : rf) (gz0 : trap) (r : rf) (gz : trap) : Prop :=
+  trap_flat_area mg ms raster dur area = Ok gz0 /\ couple fg fr raster r0 gz0 = (r, gz).
+
+Lemma gz_part_props fg fr mg ms raster dur area r0 gz0 r gz :
+  gz_delay_spec fg -> rf_delay_spec fr -> 0 < raster ->
+  gz_part fg fr mg ms raster dur area r0 gz0 r gz ->
+  (* flat top *)
+  ~ dur == 0 /\ g_flat gz = dur /\ g_amp gz = area / dur /\ g_flat_area gz == area /\
+  (* symmetric ramps on the raster *)
+  g_fall gz = g_rise gz /\ (exists k : Z, (1 <= k)%Z /\ g_rise gz = inject_Z k * raster) /\
+  g_area gz == g_amp gz * (g_flat gz + g_rise gz) /\ g_area gz = g_area gz0 /\
+  (* timing *)
+  r_delay r == g_delay gz + g_rise gz /\ r_delay r0 <= r_delay r /\
+  (exists k : Z, (0 <= k)%Z /\ g_delay gz == inject_Z k * raster) /\
+  g_delay gz < Qmax (r_delay r0 - g_rise gz) 0 + raster /\
+  (* the RF event itself is otherwise unchanged *)
+  r_signal r = r_signal r0 /\ r_t r = r_t r0 /\ r_shape_dur r = r_shape_dur r0 /\ r_freq r = r_freq r0 /\
+  r_phase r = r_phase r0 /\ r_dead r = r_dead r0 /\ r_ring r = r_ring r0 /\ r_use r = r_use r0 /\
+  Qabs (g_amp gz) <= mg + rf_eps.
+Proof.
+  intros SG SR Hr [HT HC].
+  apply trap_flat_area_ok in HT. destruct HT as (NZ & A & Fl & R & Fa & D & Ar & FA & L).
+  pose proof (couple_keeps _ _ _ _ _ _ _ HC) as (K1 & K2 & K3 & K4 & K5 & K6 & K7 & K8 & G1 & G2 & G3 & G4 & G5 & G6).
+  assert (D0 : g_delay gz0 == 0) by (rewrite D; reflexivity).
+  pose proof (couple_delays _ _ _ _ _ _ _ SG SR Hr D0 HC) as (T1 & T2 & T3 & T4).
+  rewrite G2 in *. rewrite G1, G3, G4, G5, G6.
+  repeat split; auto.
+  - rewrite FA, A, Fl. field. exact NZ.
+  - rewrite R. unfold shortest_rise. eexists. split; [|reflexivity].
+    assert (H1 : 1 <= Qmax (Qabs (area / dur) / ms) raster / raster).
+    { apply Qle_shift_div_l; [exact Hr|]. pose proof (Qmax_ub_r (Qabs (area / dur) / ms) raster). lra. }
+    apply Qceiling_ge1 in H1. rewrite Zle_Qle. exact H1.
+  - rewrite Ar, Fa. field.
+Qed.
+
+(* ---------------------------------------------------------------------------------------------- *)
+(* inversion of make_shaped *)
+Definition eff_dwell (S : sys) (dwell0 : Q) : Q := if Qeqb dwell0 0 then s_rf_raster S else dwell0.
+
+Definition shaped_r0 (X : rf_exprs) (S : sys) (pi : Q) (w : list Q) (flip delay duration dwell fo po : Q) (use : nat) : rf :=
+  let nz := rnd_he (duration / dwell) in
+  mkRf (shaped_signal X w flip dwell pi) (shaped_times X (Z.to_nat nz) dwell) (x_shape_dur X (inject_Z nz) dwell)
+       fo po (s_rf_dead S) (s_rf_ring S) (dead_time_rule (s_rf_dead S) delay) (use_field use).
+
+Definition shaped_bandwidth (gauss : bool) (bw0 tbw duration : Q) : Q :=
+  if (gauss && negb (Qeqb bw0 0))%bool then bw0 else tbw / duration.
+
+Lemma make_shaped_inv gauss X S pi w flip delay duration dwell0 cp fo po bw0 tbw rgz th mg ms use r g :
+  make_shaped gauss X S pi w flip delay duration dwell0 cp fo po bw0 tbw rgz th mg ms use = Ok (r, g) ->
+  let dwell := eff_dwell S dwell0 in
+  let r0 := shaped_r0 X S pi w flip delay duration dwell fo po use in
+  let area := x_area X (x_amplitude X (shaped_bandwidth gauss bw0 tbw duration) th) duration in
+  (use <= rf_uses_count)%nat /\ ~ dwell == 0 /\ (gauss = false -> 0 < duration) /\
+  length w = Z.to_nat (rnd_he (duration / dwell)) /\
+  match g with
+  | None => rgz = false /\ r = r0
+  | Some (gz, gzr) =>
+      rgz = true /\ ~ th == 0 /\
+      exists gz0,
+        gz_part (x_gz_delay X) (x_rf_delay X) (override mg (s_max_grad S)) (override ms (s_max_slew S))
+                (s_grad_raster S) duration area r0 gz0 r gz /\
+        trap_area (override mg (s_max_grad S)) (override ms (s_max_slew S)) (s_grad_raster S)
+                  (x_gzr_area X area cp (g_area gz0)) = Ok gzr
+  end.
+Proof.
+  intros H dwell r0 area. unfold make_shaped in H. fold (eff_dwell S dwell0) in H. fold dwell in H.
+  destruct (use_ok use) eqn:EU; cbn [negb] in H; [|discriminate].
+  destruct (negb gauss && Qleb duration 0)%bool eqn:ED; [discriminate|].
+  destruct (Qeqb duration 0 && (negb gauss || Qeqb bw0 0))%bool eqn:EZ; [discriminate|].
+  destruct (Qeqb dwell 0) eqn:EW; [discriminate|].
+  destruct (Nat.eqb (length w) (Z.to_nat (rnd_he (duration / dwell)))) eqn:EL; cbn [negb] in H; [|discriminate].
+  fold (shaped_bandwidth gauss bw0 tbw duration) in H.
+  fold (shaped_r0 X S pi w flip delay duration dwell fo po use) in H. fold r0 in H.
+  split; [apply Nat.leb_le; exact EU|].
+  split; [apply Qeqb_false; exact EW|].
+  split.
+  { intro G. subst gauss. cbn [negb andb] in ED. apply Qleb_false in ED. exact ED. }
+  split; [apply Nat.eqb_eq; exact EL|].
+  destruct rgz.
+  - destruct (Qeqb th 0) eqn:ET; [discriminate|].
+    fold area in H.
+    destruct (trap_flat_area (override mg (s_max_grad S)) (override ms (s_max_slew S)) (s_grad_raster S) duration area)
+      as [gz0|e] eqn:EG; [|discriminate].
+    destruct (trap_area (override mg (s_max_grad S)) (override ms (s_max_slew S)) (s_grad_raster S)
+                (x_gzr_area X area cp (g_area gz0))) as [gzr|e] eqn:ER; [|discriminate].
+    destruct (couple (x_gz_delay X) (x_rf_delay X) (s_grad_raster S) r0 gz0) as [r1 gz1] eqn:EC.
+    injection H as <- <-.
+    split; [reflexivity|]. split; [apply Qeqb_false; exact ET|].
+    exists gz0. split; [split; assumption|exact ER].
+  - injection H as <- <-. split; reflexivity.
+Qed.
+
+(* the two facts about the coupling that need no assumption on the raster or on the ceil expression *)
+Lemma couple_weak fg fr raster r gz r' gz' :
+  rf_delay_spec fr -> couple fg fr raster r gz = (r', gz') ->
+  r_delay r <= r_delay r' /\ g_delay gz' + g_rise gz' <= r_delay r'.
+Proof.
+  intros SR. unfold couple. intro H. injection H as <- <-.
+  set (gz1 := if Qltb (g_rise gz) (r_delay r) then set_gz_delay gz (fg (r_delay r) (g_rise gz) raster) else gz).
+  destruct (Qltb (r_delay r) (g_rise gz1 + g_delay gz1)) eqn:E.
+  - apply Qltb_lt in E. cbn [set_rf_delay r_delay]. pose proof (SR (g_rise gz1) (g_delay gz1)). lra.
+  - apply Qltb_false in E. lra.
+Qed.
+
+(* ---------------------------------------------------------------------------------------------- *)
+(* consequences for make_sinc_pulse / make_gauss_pulse, generic in the generated expressions *)
+Section Shaped.
+  Variables (gauss : bool) (X : rf_exprs).
+  Hypothesis SP : shaped_spec X.
+  Variables (S : sys) (pi : Q) (w : list Q).
+  Variables (flip delay duration dwell0 cp fo po bw0 tbw : Q) (rgz : bool) (th mg ms : Q) (use : nat).
+  Variables (r : rf) (g : option (trap * trap)).
+  Hypothesis H : make_shaped gauss X S pi w flip delay duration dwell0 cp fo po bw0 tbw rgz th mg ms use = Ok (r, g).
+
+  Let dwell := eff_dwell S dwell0.
+  Let nz := rnd_he (duration / dwell).
+  Let r0 := shaped_r0 X S pi w flip delay duration dwell fo po use.
+  Let bandwidth := shaped_bandwidth gauss bw0 tbw duration.
+  Let area := x_area X (x_amplitude X bandwidth th) duration.
+
+  Lemma SRd : rf_delay_spec (x_rf_delay X).
+  Proof. intros a b. apply (sp_rf_delay X SP). Qed.
+  Lemma SGd : gz_delay_spec (x_gz_delay X).
+  Proof. intros a b c. apply (sp_gz_delay X SP). Qed.
+
+  Lemma shaped_fields :
+    r_signal r = shaped_signal X w flip dwell pi /\
+    r_t r = shaped_times X (Z.to_nat nz) dwell /\
+    r_shape_dur r = x_shape_dur X (inject_Z nz) dwell /\
+    r_freq r = fo /\ r_phase r = po /\ r_dead r = s_rf_dead S /\ r_ring r = s_rf_ring S /\
+    r_use r = use_field use /\ (use <= rf_uses_count)%nat /\
+    dead_time_rule (s_rf_dead S) delay <= r_delay r /\
+    (g = None -> r_delay r = dead_time_rule (s_rf_dead S) delay) /\
+    length w = Z.to_nat nz /\ ~ dwell == 0 /\ (g = None <-> rgz = false).
+  Proof.
+    pose proof (make_shaped_inv _ _ _ _ _ _ _ _ _ _ _ _ _ _ _ _ _ _ _ _ _ H) as (U & DW & _ & LW & G).
+    fold dwell in DW, LW, G. fold r0 in G. fold nz in LW.
+    destruct g as [[gz gzr]|].
+    - destruct G as (RG & _ & gz0 & [HT HC] & _).
+      pose proof (couple_keeps _ _ _ _ _ _ _ HC) as (K1 & K2 & K3 & K4 & K5 & K6 & K7 & K8 & _).
+      pose proof (couple_weak _ _ _ _ _ _ _ SRd HC) as [M _].
+      rewrite K1, K2, K3, K4, K5, K6, K7, K8. cbn [r0 shaped_r0 r_signal r_t r_shape_dur r_freq r_phase r_dead r_ring r_use].
+      repeat split; auto; try discriminate. subst rgz. discriminate.
+    - destruct G as [RG ->]. cbn [r0 shaped_r0 r_signal r_t r_shape_dur r_freq r_phase r_dead r_ring r_use r_delay].
+      repeat split; auto; try lra.
+  Qed.
+
+  (* flip angle *)
+  Lemma shaped_flip : ~ sumQ w == 0 -> 0 < pi -> 2 * pi * dwell * sumQ (r_signal r) == flip.
+  Proof.
+    intros Hs Hp. destruct shaped_fields as (E & _ & _ & _ & _ & _ & _ & _ & _ & _ & _ & _ & DW & _).
+    rewrite E. apply shaped_flip_exact; auto. lra.
+  Qed.
+
+  (* sample grid *)
+  Lemma shaped_grid :
+    length (r_t r) = length (r_signal r) /\ length (r_signal r) = Z.to_nat nz /\
+    (forall i, (i < Z.to_nat nz)%nat -> nth i (r_t r) 0 == (inject_Z (Z.of_nat i) + (1 # 2)) * dwell) /\
+    (forall i, (Datatypes.S i < Z.to_nat nz)%nat -> nth (Datatypes.S i) (r_t r) 0 - nth i (r_t r) 0 == dwell).
+  Proof.
+    destruct shaped_fields as (E & T & _ & _ & _ & _ & _ & _ & _ & _ & _ & LW & _).
+    rewrite E, T. rewrite shaped_signal_length, shaped_times_length.
+    repeat split; auto.
+    - intros i Hi. apply shaped_times_nth; assumption.
+    - intros i Hi. rewrite !shaped_times_nth by (auto; lia).
+      rewrite Nat2Z.inj_succ. unfold Z.succ. rewrite inject_Z_plus. change (inject_Z 1) with 1. ring.
+  Qed.
+
+  Lemma shaped_shape_dur :
+    r_shape_dur r == inject_Z nz * dwell /\
+    (0 <= duration / dwell -> r_shape_dur r == inject_Z (Z.of_nat (length (r_signal r))) * dwell) /\
+    (forall N : Z, duration == inject_Z N * dwell -> nz = N /\ r_shape_dur r == duration).
+  Proof.
+    destruct shaped_fields as (E & _ & SD & _ & _ & _ & _ & _ & _ & _ & _ & LW & DW & _).
+    assert (A : r_shape_dur r == inject_Z nz * dwell) by (rewrite SD; apply (sp_shape_dur X SP)).
+    split; [exact A|]. split.
+    - intro P. rewrite A. rewrite E, shaped_signal_length, LW.
+      rewrite Z2Nat.id by (apply rnd_he_nonneg; exact P). reflexivity.
+    - intros N HN. assert (nz = N) by (apply rnd_he_multiple; assumption).
+      split; [assumption|]. rewrite A, HN. subst N. reflexivity.
+  Qed.
+
+  (* last sample: shape_dur - dwell/2 *)
+  Lemma shaped_last : (0 < Z.to_nat nz)%nat ->
+    nth (Z.to_nat nz - 1) (r_t r) 0 == r_shape_dur r - dwell / 2.
+  Proof.
+    intro P. destruct shaped_grid as (_ & _ & N & _). destruct shaped_shape_dur as (A & _).
+    rewrite N by lia. rewrite A.
+    assert (Z.of_nat (Z.to_nat nz - 1) = nz - 1)%Z by lia. rewrite H0.
+    unfold Z.sub. rewrite inject_Z_plus, inject_Z_opp. change (inject_Z 1) with 1. field.
+  Qed.
+
+  (* slice-select gradient *)
+  Lemma shaped_gz gz gzr : g = Some (gz, gzr) -> 0 < s_grad_raster S -> 0 < override mg (s_max_grad S) ->
+    ~ duration == 0 /\ ~ th == 0 /\
+    g_flat gz = duration /\ g_amp gz == bandwidth / th /\ g_flat_area gz == bandwidth / th * duration /\
+    g_fall gz = g_rise gz /\ (exists k : Z, (1 <= k)%Z /\ g_rise gz = inject_Z k * s_grad_raster S) /\
+    r_delay r == g_delay gz + g_rise gz /\
+    (exists k : Z, (0 <= k)%Z /\ g_delay gz == inject_Z k * s_grad_raster S) /\
+    g_delay gz < Qmax (dead_time_rule (s_rf_dead S) delay - g_rise gz) 0 + s_grad_raster S /\
+    Qabs (g_amp gz) <= override mg (s_max_grad S) + rf_eps /\
+    (* rephaser *)
+    g_area gzr == - (g_amp gz * duration * (1 - cp) + g_amp gz * g_fall gz / 2) /\
+    g_area gzr == - (g_flat_area gz) * (1 - cp) - (1 # 2) * (g_area gz - g_flat_area gz) /\
+    (cp == 1 # 2 -> g_area gzr == - (g_area gz / 2)).
+  Proof.
+    intros -> Hr Hmg.
+    pose proof (make_shaped_inv _ _ _ _ _ _ _ _ _ _ _ _ _ _ _ _ _ _ _ _ _ H) as (_ & _ & _ & _ & G).
+    cbv zeta in G. fold dwell in G. fold r0 in G. fold bandwidth in G. fold area in G.
+    destruct G as (_ & TH & gz0 & GP & HR).
+    pose proof (gz_part_props _ _ _ _ _ _ _ _ _ _ _ SGd SRd Hr GP)
+      as (NZ & Fl & A & FA & Fa & KR & Ar & Ar0 & T1 & T2 & T3 & T4 & _ & _ & _ & _ & _ & _ & _ & _ & L).
+    apply (trap_area_ok _ _ _ _ _ Hmg Hr) in HR. destruct HR as (RA & _ & _).
+    assert (EA : area == bandwidth / th * duration).
+    { unfold area. rewrite (sp_area X SP), (sp_amplitude X SP). reflexivity. }
+    assert (AM : g_amp gz == bandwidth / th).
+    { rewrite A, EA. field. split; assumption. }
+    assert (RG : g_area gzr == - area * (1 - cp) - (1 # 2) * (g_area gz - area)).
+    { rewrite RA. rewrite (sp_gzr_area X SP). rewrite Ar0. reflexivity. }
+    repeat split; auto.
+    - rewrite FA. exact EA.
+    - rewrite RG, Ar, Fa, Fl, EA, AM. field. exact TH.
+    - rewrite RG, FA. reflexivity.
+    - intro C. rewrite RG, C. field.
+  Qed.
+
+  (* doubling the flip angle doubles every sample (same envelope) *)
+End Shaped.
+
+Lemma shaped_linear_in_flip gauss X (SP : shaped_spec X) Sy pi w c flip delay duration dwell0 cp fo po bw0 tbw rgz th mg ms use
+      r1 g1 r2 g2 :
+  make_shaped gauss X Sy pi w flip delay duration dwell0 cp fo po bw0 tbw rgz th mg ms use = Ok (r1, g1) ->
+  make_shaped gauss X Sy pi w (c * flip) delay duration dwell0 cp fo po bw0 tbw rgz th mg ms use = Ok (r2, g2) ->
+  Forall2 (fun x y => x == c * y) (r_signal r2) (r_signal r1).
+Proof.
+  intros H1 H2.
+  destruct (shaped_fields gauss X SP _ _ _ _ _ _ _ _ _ _ _ _ _ _ _ _ _ _ _ H1) as (E1 & _).
+  destruct (shaped_fields gauss X SP _ _ _ _ _ _ _ _ _ _ _ _ _ _ _ _ _ _ _ H2) as (E2 & _).
+  rewrite E1, E2. apply shaped_signal_linear. exact SP.
+Qed.
+
+(* ---------------------------------------------------------------------------------------------- *)
+(* make_block_pulse *)
+Lemma block_signal_spec a p d : block_signal a p d == a / (2 * p) / d.
+Proof. unfold block_signal. change ((2 # 1) * p) with (2 * p). change (1 # 1) with 1. ring. Qed.
+Lemma block_t_spec k r : block_t k r == k * r.
+Proof. reflexivity. Qed.
+
+Lemma make_block_inv Sy pi flip delay duration bandwidth tbw fo po use r :
+  make_block Sy pi flip delay duration bandwidth tbw fo po use = Ok r ->
+  exists dur, block_duration duration bandwidth tbw = Ok dur /\ 0 < dur /\
+    ~ s_rf_raster Sy == 0 /\ (use <= rf_uses_count)%nat /\
+    let nz := rnd_he (dur / s_rf_raster Sy) in
+    r_signal r = [block_signal flip pi dur; block_signal flip pi dur] /\
+    r_t r = [block_t 0 (s_rf_raster Sy); block_t (inject_Z nz) (s_rf_raster Sy)] /\
+    r_shape_dur r = block_t (inject_Z nz) (s_rf_raster Sy) /\
+    r_freq r = fo /\ r_phase r = po /\ r_dead r = s_rf_dead Sy /\ r_ring r = s_rf_ring Sy /\
+    r_delay r = dead_time_rule (s_rf_dead Sy) delay /\ r_use r = use_field use.
+Proof.
+  unfold make_block. destruct (use_ok use) eqn:EU; cbn [negb]; [|discriminate].
+  destruct (block_duration duration bandwidth tbw) as [dur|e] eqn:ED; [|discriminate].
+  destruct (Qeqb (s_rf_raster Sy) 0) eqn:ER; [discriminate|].
+  intro H. injection H as <-. exists dur. split; [reflexivity|].
+  split.
+  { (* every accepted duration is positive when it is given explicitly or derived from positive arguments *)
+    unfold block_duration in ED.
+    destruct duration as [d|], bandwidth as [b|].
+    - destruct (Qltb 0 d); discriminate.
+    - destruct (Qltb 0 d) eqn:E; [|discriminate]. injection ED as <-. apply Qltb_lt. exact E.
+    - destruct (Qltb 0 b) eqn:E; [|discriminate]. apply Qltb_lt in E.
+      assert (Pb : 0 < block_dur_bw b).
+      { unfold block_dur_bw. apply Qlt_shift_div_l; [|lra].
+        change ((4 # 1) * b) with (4 * b). lra. }
+      destruct tbw as [tb|].
+      + destruct (Qltb 0 tb) eqn:E2.
+        * injection ED as <-. apply Qltb_lt in E2. unfold block_dur_tbw. apply Qlt_shift_div_l; lra.
+        * injection ED as <-. exact Pb.
+      + injection ED as <-. exact Pb.
+    - injection ED as <-. unfold block_default_duration. reflexivity. }
+  split; [apply Qeqb_false; exact ER|].
+  split; [apply Nat.leb_le; exact EU|].
+  cbn. repeat split; reflexivity.
+Qed.
+
+(* the two end points; the pulse is the constant between them: integral = s * (t1 - t0) *)
+Lemma block_flip Sy pi flip delay dur fo po use r (N : Z) :
+  make_block Sy pi flip delay (Some dur) None None fo po use = Ok r ->
+  0 < pi -> dur == inject_Z N * s_rf_raster Sy ->
+  exists s t0 t1, r_signal r = [s; s] /\ r_t r = [t0; t1] /\ t0 == 0 /\ t1 == dur /\
+    r_shape_dur r == dur /\ r_shape_dur r == inject_Z N * s_rf_raster Sy /\
+    2 * pi * (s * (t1 - t0)) == flip.
+Proof.
+  intros H Hp HN. apply make_block_inv in H. destruct H as (d & ED & Pd & NR & _ & Sg & T & SD & _).
+  cbn in ED. destruct (Qltb 0 dur) eqn:E; [|discriminate]. injection ED as <-.
+  assert (RN : rnd_he (dur / s_rf_raster Sy) = N) by (apply rnd_he_multiple; assumption).
+  rewrite RN in T, SD.
+  eexists _, _, _. split; [exact Sg|]. split; [exact T|].
+  rewrite !block_t_spec, block_signal_spec. rewrite SD, block_t_spec.
+  repeat split; try (rewrite HN; ring); try ring.
+  rewrite <- HN. field. split; lra.
+Qed.
+
+(* ---------------------------------------------------------------------------------------------- *)
+(* make_arbitrary_rf *)
+Definition arb_r0 (Sy : sys) (pi : Q) (w : list Q) (flip delay dwell fo po : Q) (noscale : bool) (use : nat) : rf :=
+  mkRf (arb_signal w noscale flip dwell pi) (arb_times (length w) dwell)
+       (arb_duration (inject_Z (Z.of_nat (length w))) dwell) fo po (s_rf_dead Sy) (s_rf_ring Sy)
+       (dead_time_rule (s_rf_dead Sy) delay) (use_field use).
+
+Definition arb_bandwidth (bw0 tbw duration : Q) : Q := if Qltb 0 tbw then tbw / duration else bw0.
+
+Lemma make_arbitrary_inv Sy pi w flip bw0 delay dwell0 fo po noscale mg ms rgz th tbw use r g :
+  make_arbitrary Sy pi w flip bw0 delay dwell0 fo po noscale mg ms rgz th tbw use = Ok (r, g) ->
+  let dwell := eff_dwell Sy dwell0 in
+  let r0 := arb_r0 Sy pi w flip delay dwell fo po noscale use in
+  let duration := arb_duration (inject_Z (Z.of_nat (length w))) dwell in
+  let area := arb_area (arb_amplitude (arb_bandwidth bw0 tbw duration) th) duration in
+  (use <= rf_uses_count)%nat /\
+  match g with
+  | None => rgz = false /\ r = r0
+  | Some gz => rgz = true /\ 0 < th /\ 0 < bw0 /\
+      exists gz0, gz_part arb_gz_delay arb_rf_delay (override mg (s_max_grad Sy)) (override ms (s_max_slew Sy))
+                          (s_grad_raster Sy) duration area r0 gz0 r gz
+  end.
+Proof.
+  intros H dwell r0 duration area. unfold make_arbitrary in H.
+  fold (eff_dwell Sy dwell0) in H. fold dwell in H.
+  fold (arb_r0 Sy pi w flip delay dwell fo po noscale use) in H. fold r0 in H. fold duration in H.
+  destruct (use_ok use) eqn:EU; cbn [negb] in H; [|discriminate].
+  split; [apply Nat.leb_le; exact EU|].
+  destruct rgz.
+  - destruct (Qleb th 0) eqn:ET; [discriminate|].
+    destruct (Qleb bw0 0) eqn:EB; [discriminate|].
+    destruct (Qltb 0 tbw && Qeqb duration 0)%bool; [discriminate|].
+    fold (arb_bandwidth bw0 tbw duration) in H. fold area in H.
+    destruct (trap_flat_area (override mg (s_max_grad Sy)) (override ms (s_max_slew Sy)) (s_grad_raster Sy) duration area)
+      as [gz0|e] eqn:EG; [|discriminate].
+    destruct (couple arb_gz_delay arb_rf_delay (s_grad_raster Sy) r0 gz0) as [r1 gz1] eqn:EC.
+    injection H as <- <-.
+    split; [reflexivity|]. split; [apply Qleb_false; exact ET|]. split; [apply Qleb_false; exact EB|].
+    exists gz0. split; assumption.
+  - injection H as <- <-. split; reflexivity.
+Qed.
+
+Section Arb.
+  Variables (Sy : sys) (pi : Q) (w : list Q).
+  Variables (flip bw0 delay dwell0 fo po : Q) (noscale : bool) (mg ms : Q) (rgz : bool) (th tbw : Q) (use : nat).
+  Variables (r : rf) (g : option trap).
+  Hypothesis H : make_arbitrary Sy pi w flip bw0 delay dwell0 fo po noscale mg ms rgz th tbw use = Ok (r, g).
+  Let dwell := eff_dwell Sy dwell0.
+  Let r0 := arb_r0 Sy pi w flip delay dwell fo po noscale use.
+  Let duration := arb_duration (inject_Z (Z.of_nat (length w))) dwell.
+  Let bandwidth := arb_bandwidth bw0 tbw duration.
+  Let area := arb_area (arb_amplitude bandwidth th) duration.
+
+  Lemma arb_fields :
+    r_signal r = arb_signal w noscale flip dwell pi /\
+    r_t r = arb_times (length w) dwell /\
+    r_shape_dur r = duration /\
+    r_freq r = fo /\ r_phase r = po /\ r_dead r = s_rf_dead Sy /\ r_ring r = s_rf_ring Sy /\
+    r_use r = use_field use /\ (use <= rf_uses_count)%nat /\
+    dead_time_rule (s_rf_dead Sy) delay <= r_delay r /\
+    (g = None -> r_delay r = dead_time_rule (s_rf_dead Sy) delay).
+  Proof.
+    pose proof (make_arbitrary_inv _ _ _ _ _ _ _ _ _ _ _ _ _ _ _ _ _ _ H) as (U & G).
+    cbv zeta in G. fold dwell in G. fold r0 in G. fold duration in G.
+    destruct g as [gz|].
+    - destruct G as (_ & _ & _ & gz0 & [HT HC]).
+      pose proof (couple_keeps _ _ _ _ _ _ _ HC) as (K1 & K2 & K3 & K4 & K5 & K6 & K7 & K8 & _).
+      pose proof (couple_weak _ _ _ _ _ _ _ arb_rf_delay_spec HC) as [M _].
+      rewrite K1, K2, K3, K4, K5, K6, K7, K8.
+      cbn [r0 arb_r0 r_signal r_t r_shape_dur r_freq r_phase r_dead r_ring r_use].
+      repeat split; auto; discriminate.
+    - destruct G as [_ ->]. cbn [r0 arb_r0 r_signal r_t r_shape_dur r_freq r_phase r_dead r_ring r_use r_delay].
+      repeat split; auto; lra.
+  Qed.
+
+  Lemma arb_flip : noscale = false -> 0 < dwell -> 0 < pi ->
+    (0 < sumQ w -> 2 * pi * dwell * sumQ (r_signal r) == flip) /\
+    (sumQ w < 0 -> 2 * pi * dwell * sumQ (r_signal r) == - flip) /\
+    (~ sumQ w == 0 -> Qabs (2 * pi * dwell * sumQ (r_signal r)) == Qabs flip).
+  Proof.
+    intros NS Hd Hp. destruct arb_fields as (E & _). rewrite E. subst noscale.
+    split; [intro; apply arb_flip_pos; assumption|].
+    split; [intro; apply arb_flip_neg; assumption|].
+    intro NZ. destruct (Qlt_le_dec (sumQ w) 0) as [N|P].
+    - rewrite arb_flip_neg by assumption. apply Qabs_opp.
+    - destruct (Qle_lt_or_eq _ _ P) as [L|Z]; [|exfalso; apply NZ; symmetry; exact Z].
+      rewrite arb_flip_pos by assumption. reflexivity.
+  Qed.
+
+  Lemma arb_grid :
+    length (r_t r) = length w /\ (noscale = false -> length (r_signal r) = length w) /\
+    (forall i, (i < length w)%nat -> nth i (r_t r) 0 == (inject_Z (Z.of_nat i) + (1 # 2)) * dwell) /\
+    r_shape_dur r == inject_Z (Z.of_nat (length w)) * dwell.
+  Proof.
+    destruct arb_fields as (E & T & SD & _). rewrite E, T, SD.
+    split; [unfold arb_times; rewrite map_length; apply zrange_length|].
+    split; [intros ->; unfold arb_signal; apply map_length|].
+    split; [intros i Hi; apply arb_times_nth; exact Hi|].
+    unfold duration, arb_duration. reflexivity.
+  Qed.
+
+  Lemma arb_gz gz : g = Some gz -> 0 < s_grad_raster Sy ->
+    ~ duration == 0 /\ 0 < th /\
+    g_flat gz = duration /\ g_amp gz == bandwidth / th /\
+    g_fall gz = g_rise gz /\ (exists k : Z, (1 <= k)%Z /\ g_rise gz = inject_Z k * s_grad_raster Sy) /\
+    r_delay r == g_delay gz + g_rise gz /\
+    (exists k : Z, (0 <= k)%Z /\ g_delay gz == inject_Z k * s_grad_raster Sy) /\
+    g_delay gz < Qmax (dead_time_rule (s_rf_dead Sy) delay - g_rise gz) 0 + s_grad_raster Sy.
+  Proof.
+    intros -> Hr.
+    pose proof (make_arbitrary_inv _ _ _ _ _ _ _ _ _ _ _ _ _ _ _ _ _ _ H) as (_ & G).
+    cbv zeta in G. fold dwell in G. fold r0 in G. fold duration in G. fold bandwidth in G. fold area in G.
+    destruct G as (_ & TH & _ & gz0 & GP).
+    pose proof (gz_part_props _ _ _ _ _ _ _ _ _ _ _ arb_gz_delay_spec arb_rf_delay_spec Hr GP)
+      as (NZ & Fl & A & FA & Fa & KR & Ar & Ar0 & T1 & T2 & T3 & T4 & _).
+    repeat split; auto.
+    rewrite A. unfold area, arb_area, arb_amplitude. field. split; (exact NZ || lra).
+  Qed.
+End Arb.
+
+Lemma arb_linear_in_flip Sy pi w c flip bw0 delay dwell0 fo po mg ms rgz th tbw use r1 g1 r2 g2 :
+  make_arbitrary Sy pi w flip bw0 delay dwell0 fo po false mg ms rgz th tbw use = Ok (r1, g1) ->
+  make_arbitrary Sy pi w (c * flip) bw0 delay dwell0 fo po false mg ms rgz th tbw use = Ok (r2, g2) ->
+  Forall2 (fun x y => x == c * y) (r_signal r2) (r_signal r1).
+Proof.
+  intros H1 H2.
+  destruct (arb_fields _ _ _ _ _ _ _ _ _ _ _ _ _ _ _ _ _ _ H1) as (E1 & _).
+  destruct (arb_fields _ _ _ _ _ _ _ _ _ _ _ _ _ _ _ _ _ _ H2) as (E2 & _).
+  rewrite E1, E2. apply arb_signal_linear.
+Qed.
+
+(* ---------------------------------------------------------------------------------------------- *)
+(* make_adiabatic_pulse: timing and slice gradients *)
+Definition adia_dwell (Sy : sys) (dwell0 : option Q) : Q := match dwell0 with None => s_rf_raster Sy | Some d => d end.
+Definition adia_use (use : nat) : nat := match use with O => adia_default_use | _ => use end.
+Definition adia_r0 (Sy : sys) (delay duration dwell fo po : Q) (use : nat) : rf :=
+  let nz := rnd_he (duration / dwell + rf_eps) in
+  mkRf [] (adia_times (Z.to_nat nz) dwell) (adia_shape_dur (inject_Z nz) dwell) fo po (s_rf_dead Sy) (s_rf_ring Sy)
+       (dead_time_rule (s_rf_dead Sy) delay) (Some (adia_use use)).
+
+Lemma make_adiabatic_inv Sy delay duration dwell0 fo po rgz th bw tc use r g :
+  make_adiabatic_timing Sy delay duration dwell0 fo po rgz th bw tc use = Ok (r, g) ->
+  let dwell := adia_dwell Sy dwell0 in
+  let r0 := adia_r0 Sy delay duration dwell fo po use in
+  let area := adia_area (adia_amplitude bw th) duration in
+  (use <= rf_uses_count)%nat /\ ~ dwell == 0 /\
+  match g with
+  | None => rgz = false /\ r = r0
+  | Some (gz, gzr) =>
+      rgz = true /\ 0 < th /\
+      exists gz0,
+        gz_part adia_gz_delay adia_rf_delay (s_max_grad Sy) (s_max_slew Sy) (s_grad_raster Sy) duration area r0 gz0 r gz /\
+        trap_area (s_max_grad Sy) (s_max_slew Sy) (s_grad_raster Sy)
+                  (adia_gzr_area area (adia_center_pos tc duration) (g_area gz0)) = Ok gzr
+  end.
+Proof.
+  intros H dwell r0 area. unfold make_adiabatic_timing in H.
+  fold (adia_dwell Sy dwell0) in H. fold dwell in H.
+  destruct (rgz && Qleb th 0)%bool eqn:ET; [discriminate|].
+  destruct (use_ok use) eqn:EU; cbn [negb] in H; [|discriminate].
+  destruct (Qeqb dwell 0) eqn:EW; [discriminate|].
+  fold (adia_use use) in H. fold (adia_r0 Sy delay duration dwell fo po use) in H. fold r0 in H.
+  split; [apply Nat.leb_le; exact EU|]. split; [apply Qeqb_false; exact EW|].
+  destruct rgz.
+  - cbn [andb] in ET. fold area in H.
+    destruct (trap_flat_area (s_max_grad Sy) (s_max_slew Sy) (s_grad_raster Sy) duration area) as [gz0|e] eqn:EG; [|discriminate].
+    destruct (trap_area (s_max_grad Sy) (s_max_slew Sy) (s_grad_raster Sy)
+                (adia_gzr_area area (adia_center_pos tc duration) (g_area gz0))) as [gzr|e] eqn:ER; [|discriminate].
+    destruct (couple adia_gz_delay adia_rf_delay (s_grad_raster Sy) r0 gz0) as [r1 gz1] eqn:EC.
+    injection H as <- <-.
+    split; [reflexivity|]. split; [apply Qleb_false; exact ET|].
+    exists gz0. split; [split; assumption|exact ER].
+  - injection H as <- <-. split; reflexivity.
+Qed.
+
+Section Adia.
+  Variables (Sy : sys) (delay duration : Q) (dwell0 : option Q) (fo po : Q) (rgz : bool) (th bw tc : Q) (use : nat).
+  Variables (r : rf) (g : option (trap * trap)).
+  Hypothesis H : make_adiabatic_timing Sy delay duration dwell0 fo po rgz th bw tc use = Ok (r, g).
+  Let dwell := adia_dwell Sy dwell0.
+  Let nz := rnd_he (duration / dwell + rf_eps).
+  Let r0 := adia_r0 Sy delay duration dwell fo po use.
+  Let area := adia_area (adia_amplitude bw th) duration.
+
+  Lemma adia_fields :
+    r_t r = adia_times (Z.to_nat nz) dwell /\
+    r_shape_dur r == inject_Z nz * dwell /\
+    r_freq r = fo /\ r_phase r = po /\ r_dead r = s_rf_dead Sy /\ r_ring r = s_rf_ring Sy /\
+    r_use r = Some (adia_use use) /\ (use <= rf_uses_count)%nat /\
+    dead_time_rule (s_rf_dead Sy) delay <= r_delay r /\
+    (g = None -> r_delay r = dead_time_rule (s_rf_dead Sy) delay).
+  Proof.
+    pose proof (make_adiabatic_inv _ _ _ _ _ _ _ _ _ _ _ _ _ H) as (U & DW & G).
+    cbv zeta in G. fold dwell in G. fold r0 in G.
+    destruct g as [[gz gzr]|].
+    - destruct G as (_ & _ & gz0 & [HT HC] & _).
+      pose proof (couple_keeps _ _ _ _ _ _ _ HC) as (K1 & K2 & K3 & K4 & K5 & K6 & K7 & K8 & _).
+      pose proof (couple_weak _ _ _ _ _ _ _ adia_rf_delay_spec HC) as [M _].
+      rewrite K2, K3, K4, K5, K6, K7, K8.
+      cbn [r0 adia_r0 r_signal r_t r_shape_dur r_freq r_phase r_dead r_ring r_use].
+      repeat split; auto; discriminate.
+    - destruct G as [_ ->]. cbn [r0 adia_r0 r_signal r_t r_shape_dur r_freq r_phase r_dead r_ring r_use r_delay].
+      repeat split; auto; lra.
+  Qed.
+
+  Lemma adia_grid :
+    length (r_t r) = Z.to_nat nz /\
+    (forall i, (i < Z.to_nat nz)%nat -> nth i (r_t r) 0 == (inject_Z (Z.of_nat i) + (1 # 2)) * dwell).
+  Proof.
+    destruct adia_fields as (T & _). rewrite T.
+    split; [unfold adia_times; rewrite map_length; apply zrange_length|].
+    intros i Hi. apply adia_times_nth. exact Hi.
+  Qed.
+
+  Lemma adia_gz gz gzr : g = Some (gz, gzr) -> 0 < s_grad_raster Sy -> 0 < s_max_grad Sy ->
+    ~ duration == 0 /\ 0 < th /\
+    g_flat gz = duration /\ g_amp gz == bw / th /\
+    g_fall gz = g_rise gz /\ (exists k : Z, (1 <= k)%Z /\ g_rise gz = inject_Z k * s_grad_raster Sy) /\
+    r_delay r == g_delay gz + g_rise gz /\
+    (exists k : Z, (0 <= k)%Z /\ g_delay gz == inject_Z k * s_grad_raster Sy) /\
+    (* rephaser, as the code computes it (centre position = adia_center_pos time_center duration) ... *)
+    g_area gzr == - (g_flat_area gz) * (1 - adia_center_pos tc duration) - (1 # 2) * (g_area gz - g_flat_area gz) /\
+    (* ... which is minus the area after the centre exactly when that position is the fraction tc/duration *)
+    (adia_center_pos tc duration == tc / duration ->
+       g_area gzr == - (g_amp gz * (duration - tc) + g_amp gz * g_fall gz / 2)).
+  Proof.
+    intros -> Hr Hmg.
+    pose proof (make_adiabatic_inv _ _ _ _ _ _ _ _ _ _ _ _ _ H) as (_ & _ & G).
+    cbv zeta in G. fold dwell in G. fold r0 in G. fold area in G.
+    destruct G as (_ & TH & gz0 & GP & HR).
+    pose proof (gz_part_props _ _ _ _ _ _ _ _ _ _ _ adia_gz_delay_spec adia_rf_delay_spec Hr GP)
+      as (NZ & Fl & A & FA & Fa & KR & Ar & Ar0 & T1 & T2 & T3 & T4 & _).
+    apply (trap_area_ok _ _ _ _ _ Hmg Hr) in HR. destruct HR as (RA & _ & _).
+    assert (EA : area == bw / th * duration) by (unfold area, adia_area, adia_amplitude; reflexivity).
+    assert (AM : g_amp gz == bw / th) by (rewrite A, EA; field; split; (exact NZ || lra)).
+    assert (RG : g_area gzr == - area * (1 - adia_center_pos tc duration) - (1 # 2) * (g_area gz - area)).
+    { rewrite RA. unfold adia_gzr_area. rewrite Ar0. reflexivity. }
+    repeat split; auto.
+    - rewrite RG, FA. reflexivity.
+    - intro C. rewrite RG, C, Ar, Fa, Fl, EA, AM. field. split; (exact NZ || lra).
+  Qed.
+End Adia.
